@@ -156,7 +156,7 @@ def build(chk):
             P.require('instantiated', b_and(*conj), witness)
         return h
 
-    shapes = [(('linear', 2), [], 1), (('quadratic', 1, 1), [('linear', 1)], 2), (('polynomial', (1, 2)), [], 2), (('polynomial', (3,)), [('linear', 1)], 2),
+    shapes = [(('linear', 2), [], 1), (('quadratic', 1, 2), [], 1), (('quadratic', 1, 1), [('linear', 1)], 2), (('polynomial', (1, 2)), [], 2), (('polynomial', (3,)), [('linear', 1)], 2),
               (None, [('linear', 2), ('quadratic', 1, None)], 2), (('polynomial', (0, 2)), [('linear', 1)], 1)]
     if chk.tier == 'thorough':
         shapes += [(('polynomial', (2, 2)), [('quadratic', 1, 1)], 2), (('quadratic', 2, None), [('polynomial', (1, 1))], 2), (('polynomial', (3,)), [('linear', 2), ('linear', 2)], 2)]
